@@ -8,10 +8,10 @@ META = {
     'technique': 'Coq proof (invariants over all operation histories of an executable model of RotatingFileSink, instantiated at the '
                  'decision shapes translated from the source) + differential run of the extracted model against the real sink under a '
                  'virtual wall clock + extracted boolean oracle evaluated on the implementation\'s directories',
-    'text': 'Theorems (Properties_C05.v): history_conserved (gone ++ rotated files in rotation order ++ active = everything written, record for record and byte for byte), only whole removed files missing, nothing missing when N <= 0, each record = payload + its own newline, rotation order = name order — for every history of write / clock advance / restart / foreign-file operations, every L, N, '
+    'text': 'Theorems (Properties_C05.v): history_conserved (gone ++ rotated files in rotation order ++ active = everything written, record for record and byte for byte), only whole removed files missing, nothing missing when N <= 0, each record = payload + its own newline, record_is_the_shown_text (a message with a formatted text - set, possibly empty - writes that text, else the raw text, + ONE newline, also when the text ends in a newline or is a lone newline), rotation order = name order — for every history of write / clock advance / restart / foreign-file operations, every L, N, '
             'option set and timestamp granularity.  They are about the very definitions that are extracted and run against the real '
             'RotatingFileSink (directory listing identical after every operation); the oracle prop_c05_b, proved true on every model '
-            'world, is evaluated on the implementation\'s listings with ghost data reconstructed from the written history.',
+            'world, is evaluated on the implementation\'s listings with ghost data reconstructed from the written history.  Outside the model (implementation-only oracle): a refused rename (a sub-directory named like the next rotated file) must not lose any record written before or after it.',
     'note': rotate_util.META_NOTE,
     'design_ref': 'DESIGN.md section 4, C05/C06/C07/C09',
     'engine': 'coq+extraction+harness',
